@@ -90,6 +90,24 @@ def install_mpi_module_stub():
     sys.modules["mpi4py.MPI"] = mm
 
 
+# ---------------------------------------------------------------- JAX cache ---
+def enable_jax_cache():
+    """Persistent XLA compilation cache in the (ignored) directory /verif/.deps/jaxcache.
+    Pure optimisation: NIFTy code that is executed eagerly re-compiles many tiny kernels in every
+    fresh worker process (and lax.cond / jnp.piecewise with fresh closures on every call); a warm
+    cache makes the quick tier ~3x faster.  Results are unaffected (cache key = HLO + options)."""
+    import os
+    import jax
+    d = os.path.join(os.path.dirname(os.path.dirname(os.path.abspath(__file__))), ".deps", "jaxcache")
+    try:
+        os.makedirs(d, exist_ok=True)
+        jax.config.update("jax_compilation_cache_dir", d)
+        jax.config.update("jax_persistent_cache_min_compile_time_secs", 0.0)
+        jax.config.update("jax_persistent_cache_min_entry_size_bytes", -1)
+    except Exception:
+        pass
+
+
 # ------------------------------------------------------------- generators ---
 def pick(rng, seq):
     return seq[int(rng.integers(0, len(seq)))]
